@@ -1583,7 +1583,7 @@ def _write_effects(st) -> Tuple[Set[str], Set[str], bool]:
     return names, attrs, opaque
 
 
-def inline_temporaries(fn):
+def inline_temporaries(fn, only=None):
     if _has_nested_scope(fn):
         nested_free = set()
         for n in _walk_no_nested(fn):
@@ -1611,6 +1611,8 @@ def inline_temporaries(fn):
                     continue
                 v = st.targets[0].id
                 if v in params or v in nested_free or len(stores.get(v, [])) != 1:
+                    continue
+                if only is not None and not only(v):
                     continue
                 rhs = st.value
                 if isinstance(rhs, (ast.Lambda,)):
@@ -2335,6 +2337,28 @@ def substitute_equivalents(rel: str, tree: ast.Module, ref_sources: Dict[str, st
         except RecursionError:
             continue
         if k_new != k_ref:
+            if table.used:
+                # not equivalent, but it calls helpers the reference tree does not have: the rules
+                # are given the function with those helpers inlined back (a semantics-preserving
+                # rewrite of the CURRENT code), so that a clause moved into a helper is still seen
+                try:
+                    t2 = HelperTable(new_module_helpers, helpers_for_class, aliases.get(cls, {}) if cls else {}, cls)
+                    inl = inline_helpers(copy.deepcopy(node), t2)
+                    inl = inline_temporaries(inl, only=lambda v: "__h" in v)
+                    ast.fix_missing_locations(inl)
+                    for x in ast.walk(inl):
+                        if not hasattr(x, "lineno") or getattr(x, "lineno", None) is None:
+                            pass
+                    ast.increment_lineno(inl, 0)
+                    idx = container.index(node)
+                    for x in ast.walk(inl):
+                        if isinstance(x, (ast.stmt, ast.expr)) and getattr(x, "lineno", 0) in (0, 1) and x is not inl:
+                            x.lineno = node.lineno
+                            x.end_lineno = node.lineno
+                    container[idx] = inl
+                    stats.setdefault("helpers_inlined_for_rules", []).append(f"{rel}::{q}")
+                except Exception as exc:  # never let the convenience break the analysis
+                    stats.setdefault("errors", []).append(f"{rel}::{q}: helper inlining for rules failed: {exc!r}")
             continue
         # the free names of the (common) normal form must mean the same thing in both modules
         free = {n.id for n in ast.walk(canon(ref_node, None)) if isinstance(n, ast.Name)}
